@@ -28,7 +28,7 @@ import Nuts.Model.Tx
 import NutsProofs.Lemmas.Assoc
 import NutsProofs.Lemmas.Bytes
 import NutsProofs.Lemmas.SparseGet
-import NutsProofs.Facts
+import NutsProofs.Pins.ReadPath
 namespace NutsProofs.C02
 open Nuts Nuts.Model Nuts.Model.DB Nuts.Model.Sparse NutsProofs
 
